@@ -382,6 +382,9 @@ func stmtStart(out string, t Top) int {
 	switch t.K {
 	case "raw":
 		first := strings.Split(t.Raw, "\n")[0]
+		if strings.TrimSpace(first) == "" {
+			return -1 // an empty first line cannot be located in the output: skip this case
+		}
 		return lineStart(out, first)
 	case "mart":
 		i := labelStart(out, t.Name)
